@@ -189,6 +189,7 @@ type HarnessResult struct {
 }
 
 var concreteTape []TapeEntry
+var stopFirst = os.Getenv("GOSYM_SELFTEST") != ""
 
 func (w *World) newInterp(ex *Explorer, pkg *ssa.Package) *Interp {
 	in := NewInterp(w.prog, ex)
@@ -338,6 +339,10 @@ func runHarness(w *World, solver *Solver, pkgName, harness string, params map[st
 		}()
 		if os.Getenv("GOSYM_PROGRESS") != "" && ex.Paths%200 == 0 {
 			fmt.Fprintf(os.Stderr, "progress: paths=%d queries=%d solver=%.1fs slow=%d restarts=%d wall=%.1fs pc=%d\n", ex.Paths, solver.Stats.Queries, solver.Stats.Seconds, solver.Stats.Slow, solver.Stats.Restarts, time.Since(t0).Seconds(), len(ex.pc))
+		}
+		if stopFirst && len(ex.Failures) > 0 {
+			// self-test mode: one witness per instance is enough
+			break
 		}
 		if maxPaths > 0 && ex.Paths >= maxPaths {
 			ex.Samples = append(ex.Samples, fmt.Sprintf("path limit %d reached", maxPaths))
